@@ -2,6 +2,7 @@
 import json
 import sys
 
+from . import core
 from .query_replay import L, forest_of
 
 
@@ -186,7 +187,11 @@ def replay_chunk(args):
             out["n"] += 1
             key = "%s:%s" % (q["q"], variant)
             out["per_kind"][key] = out["per_kind"].get(key, 0) + 1
-            obs = perform(q, variant, par, ch)
+            try:
+                obs = core.call_with_deadline(lambda: perform(q, variant, par, ch))
+            except core.Hang as e:
+                hung = {"err": "Other:Hang", "val": []}
+                obs = {"q": q["q"], "path": "?", "variant": variant, "res": hung, "runs": [{"strict": hung, "relaxed": hung}]}
             if variant == variants[0]:
                 first = obs
             elif variant.startswith("adv:"):
